@@ -963,6 +963,165 @@ Definition unique (toptr : list Z) (length : Z) (tolength : list Z) : kres (list
   KOk (fst r, tl).
 
 (* ------------------------------------------------------------------------------------------------ *)
+(** * kernels whose YAML definition is a placeholder: the model is the only executable specification *)
+
+(* awkward_ListOffsetArray_reduce_nonlocal_outstartsstops_64 (after the fix of the pinned tree): distincts is
+   outlength blocks of maxcount slots; the used slots (<> -1) of a block are contiguous from its beginning *)
+Definition reduce_nonlocal_outstartsstops (outstarts outstops distincts : list Z) (lendistincts : Z) (outlength : Z)
+  : kres (list Z * list Z) :=
+  let maxcount := if outlength =? 0 then 0 else lendistincts / outlength in
+  kfor 0 outlength (fun k st =>
+    let '(os, op) := st in
+    let start := k * maxcount in
+    let* stop := kwhile (Z.to_nat maxcount)
+        (fun stop => (stop <? start + maxcount) &&
+                     match kget distincts stop with KOk d => negb (d =? -1) | _ => true end)
+        (fun stop => let* _ := kget distincts stop in KOk (stop + 1)) start in
+    let '(a, b) := if stop =? start then (0, 0) else (start, stop) in
+    let* os' := kupd os k a in
+    let* op' := kupd op k b in
+    KOk (os', op')) (outstarts, outstops).
+
+(* awkward_NumpyArray_copy: memcpy(toptr, fromptr, len) on bytes *)
+Definition NumpyArray_copy (toptr fromptr : list Z) (len : Z) : kres (list Z) :=
+  kfill 0 len (fun i => kget fromptr i) toptr.
+
+(* awkward_NumpyArray_contiguous_copy_64: memcpy(&toptr[i*stride], &fromptr[pos[i]], stride) *)
+Definition NumpyArray_contiguous_copy (toptr fromptr : list Z) (len stride : Z) (pos : list Z) : kres (list Z) :=
+  kfor 0 len (fun i out =>
+    let* p := kget pos i in
+    kfor 0 stride (fun b out => let* x := kget fromptr (p + b) in kupd out (i * stride + b) x) out) toptr.
+
+(* awkward_NumpyArray_getitem_next_null_64: memcpy(&toptr[i*stride], &fromptr[pos[i]*stride], stride) *)
+Definition NumpyArray_getitem_next_null (toptr fromptr : list Z) (len stride : Z) (pos : list Z) : kres (list Z) :=
+  kfor 0 len (fun i out =>
+    let* p := kget pos i in
+    kfor 0 stride (fun b out => let* x := kget fromptr (p * stride + b) in kupd out (i * stride + b) x) out) toptr.
+
+(* awkward_NumpyArray_fill_tocomplex<FROM, TO>: real part = value, imaginary part = 0 *)
+Definition NumpyArray_fill_tocomplex (toptr : list Z) (tooffset : Z) (fromptr : list Z) (length : Z) : kres (list Z) :=
+  kfor 0 length (fun i out =>
+    let* x := kget fromptr i in
+    let* out := kupd out (tooffset + 2 * i) x in
+    kupd out (tooffset + 2 * i + 1) 0) toptr.
+
+(* awkward_NumpyArray_fill_fromcomplex<FROM, TO>: real part only *)
+Definition NumpyArray_fill_fromcomplex (tTO : ity) (toptr : list Z) (tooffset : Z) (fromptr : list Z) (length : Z)
+  : kres (list Z) :=
+  kfill tooffset length (fun i => let* x := kget fromptr (i * 2) in KOk (wrap tTO x)) toptr.
+
+(* awkward_NumpyArray_rearrange_shifted_toint64_fromint64 *)
+Definition NumpyArray_rearrange_shifted (toptr shifts : list Z) (length : Z) (offsets : list Z) (offsetslength : Z)
+    (parents starts : list Z) : kres (list Z) :=
+  let* r := kfor 0 (offsetslength - 1) (fun i st =>
+    let* o1 := kget offsets (i + 1) in
+    let* o0 := kget offsets i in
+    kfor 0 (o1 - o0) (fun _ st =>
+      let '(out, k) := st in
+      let* cur := kget out k in
+      let* out' := kupd out k (cur + o0) in KOk (out', k + 1)) st) (toptr, 0) in
+  kfor 0 length (fun i out =>
+    let* parent := kget parents i in
+    let* start := kget starts parent in
+    let* cur := kget out i in
+    let* sh := kget shifts cur in
+    kupd out i (cur + sh - start)) (fst r).
+
+(* awkward_NumpyArray_subrange_equal<T> *)
+Definition NumpyArray_subrange_equal (tmpptr fromstarts fromstops : list Z) (length : Z) (toequal : list Z)
+  : kres (list Z) :=
+  let* differ := kfor 0 (length - 1) (fun i differ =>
+    let* si := kget fromstarts i in
+    let* ei := kget fromstops i in
+    let leftlen := ei - si in
+    kfor (i + 1) (length - 1) (fun ii differ =>
+      let* sii := kget fromstarts ii in
+      let* eii := kget fromstops ii in
+      let rightlen := eii - sii in
+      if leftlen =? rightlen then
+        (* differ = false; for j: if differs then differ = true, break *)
+        kmap fst (kwhile (Z.to_nat leftlen)
+          (fun s : bool * Z => negb (fst s) && (snd s <? leftlen))
+          (fun s => let j := snd s in
+                    let* a := kget tmpptr (si + j) in
+                    let* b := kget tmpptr (sii + j) in
+                    KOk (negb (a =? b), j + 1))
+          (false, 0))
+      else KOk differ) differ) true in
+  kupd toequal 0 (if differ then 0 else 1).
+
+(* complex reducers: fromptr holds (re, im) pairs *)
+Definition reduce_sum_complex (toptr fromptr parents : list Z) (lenparents outlength : Z) : kres (list Z) :=
+  let* out0 := kfor 0 outlength (fun i out => let* out := kupd out (i * 2) 0 in kupd out (i * 2 + 1) 0) toptr in
+  kfor 0 lenparents (fun i out =>
+    let* p := kget parents i in
+    let* re := kget fromptr (i * 2) in
+    let* im := kget fromptr (i * 2 + 1) in
+    let* a := kget out (p * 2) in
+    let* out := kupd out (p * 2) (a + re) in
+    let* b := kget out (p * 2 + 1) in
+    kupd out (p * 2 + 1) (b + im)) out0.
+
+Definition reduce_prod_complex (toptr fromptr parents : list Z) (lenparents outlength : Z) : kres (list Z) :=
+  let* out0 := kfor 0 outlength (fun i out => let* out := kupd out (i * 2) 1 in kupd out (i * 2 + 1) 0) toptr in
+  kfor 0 lenparents (fun i out =>
+    let* p := kget parents i in
+    let* re := kget fromptr (i * 2) in
+    let* im := kget fromptr (i * 2 + 1) in
+    let* a := kget out (p * 2) in
+    let* b := kget out (p * 2 + 1) in
+    let* out := kupd out (p * 2) (a * re - b * im) in
+    kupd out (p * 2 + 1) (a * im + b * re)) out0.
+
+(* lexicographic (re, im) comparison; [lt = true]: min, else max *)
+Definition reduce_minmax_complex (lt : bool) (identity : Z) (toptr fromptr parents : list Z) (lenparents outlength : Z)
+  : kres (list Z) :=
+  let better (x y a b : Z) := if lt then (x <? a) || ((x =? a) && (y <? b)) else (a <? x) || ((x =? a) && (b <? y)) in
+  let* out0 := kfor 0 outlength (fun i out => let* out := kupd out (i * 2) identity in kupd out (i * 2 + 1) 0) toptr in
+  kfor 0 lenparents (fun i out =>
+    let* p := kget parents i in
+    let* x := kget fromptr (i * 2) in
+    let* y := kget fromptr (i * 2 + 1) in
+    let* a := kget out (p * 2) in
+    let* b := kget out (p * 2 + 1) in
+    if better x y a b then let* out := kupd out (p * 2) x in kupd out (p * 2 + 1) y else KOk out) out0.
+
+Definition reduce_arg_complex (lt : bool) (toptr fromptr parents : list Z) (lenparents outlength : Z) : kres (list Z) :=
+  let better (x y a b : Z) := if lt then (x <? a) || ((x =? a) && (y <? b)) else (a <? x) || ((x =? a) && (b <? y)) in
+  let* out0 := kfill 0 outlength (fun _ => KOk (-1)) toptr in
+  kfor 0 lenparents (fun i out =>
+    let* p := kget parents i in
+    let* cur := kget out p in
+    if cur =? -1 then kupd out p i
+    else
+      let* x := kget fromptr (i * 2) in
+      let* a := kget fromptr (cur * 2) in
+      if (if lt then x <? a else a <? x) then kupd out p i
+      else if x =? a then
+        let* y := kget fromptr (i * 2 + 1) in
+        let* b := kget fromptr (cur * 2 + 1) in
+        if (if lt then y <? b else b <? y) then kupd out p i else KOk out
+      else KOk out) out0.
+
+(* countnonzero / any / all on complex input *)
+Definition reduce_bool_complex (tO : ity) (init : Z) (step : Z -> bool -> Z) (toptr fromptr parents : list Z)
+    (lenparents outlength : Z) : kres (list Z) :=
+  let* out0 := kfill 0 outlength (fun _ => KOk (wrap tO init)) toptr in
+  kfor 0 lenparents (fun i out =>
+    let* p := kget parents i in
+    let* re := kget fromptr (i * 2) in
+    let* im := kget fromptr (i * 2 + 1) in
+    let* cur := kget out p in
+    kupd out p (wrap tO (step cur (negb (re =? 0) || negb (im =? 0))))) out0.
+Definition reduce_countnonzero_complex := reduce_bool_complex i64 0 (fun cur nz => cur + (if nz then 1 else 0)).
+Definition reduce_sum_bool_complex := reduce_bool_complex TB 0 (fun cur nz => if (cur =? 0) && negb nz then 0 else 1).
+Definition reduce_prod_bool_complex := reduce_bool_complex TB 1 (fun cur nz => if (cur =? 0) || negb nz then 0 else 1).
+
+(* awkward_content_reduce_zeroparents_64 *)
+Definition content_reduce_zeroparents (toparents : list Z) (length : Z) : kres (list Z) :=
+  kfill 0 length (fun _ => KOk 0) toparents.
+
+(* ------------------------------------------------------------------------------------------------ *)
 (** * Uniform entry point for the runner: arguments in the order of kernel-specification.yml *)
 Inductive val := VI (z : Z) | VL (l : list Z) | VLL (l : list (list Z)).
 
@@ -989,7 +1148,12 @@ Inductive kname :=
 | K_reduce_nonlocal_preparenext | K_reduce_nonlocal_nextstarts | K_reduce_nonlocal_findgaps | K_reduce_nonlocal_nextshifts
 | K_sorting_ranges | K_sorting_ranges_length | K_reduce_count | K_reduce_sum | K_reduce_prod | K_reduce_countnonzero
 | K_reduce_sum_bool | K_reduce_prod_bool | K_reduce_min | K_reduce_max | K_reduce_argmin | K_reduce_argmax
-| K_NumpyArray_fill | K_IndexedArray_fill | K_UnionArray_filltags | K_UnionArray_fillindex | K_ListArray_fill | K_unique.
+| K_NumpyArray_fill | K_IndexedArray_fill | K_UnionArray_filltags | K_UnionArray_fillindex | K_ListArray_fill | K_unique
+| K_reduce_nonlocal_outstartsstops | K_NumpyArray_copy | K_NumpyArray_contiguous_copy | K_NumpyArray_getitem_next_null
+| K_NumpyArray_fill_tocomplex | K_NumpyArray_fill_fromcomplex | K_NumpyArray_rearrange_shifted | K_NumpyArray_subrange_equal
+| K_reduce_sum_complex | K_reduce_prod_complex | K_reduce_min_complex | K_reduce_max_complex | K_reduce_argmin_complex
+| K_reduce_argmax_complex | K_reduce_countnonzero_complex | K_reduce_sum_bool_complex | K_reduce_prod_bool_complex
+| K_content_reduce_zeroparents.
 
 Definition ty (ts : list ity) (k : nat) : ity := nth k ts TIdeal.
 Definition vb (z : Z) : bool := negb (z =? 0).
@@ -1189,4 +1353,41 @@ Definition run (k : kname) (ts : list ity) (a : list val) : kres (list val) :=
       | _ => KErr MBadArgs end
   | K_unique =>
       match a with [VL x; VI n; VL tl] => o2 (unique x n tl) | _ => KErr MBadArgs end
+  | K_reduce_nonlocal_outstartsstops =>
+      match a with [VL os; VL op; VL d; VI ld; VL _; VI ol] => o2 (reduce_nonlocal_outstartsstops os op d ld ol) | _ => KErr MBadArgs end
+  | K_NumpyArray_copy =>
+      match a with [VL x; VL f; VI n] => o1 (NumpyArray_copy x f n) | _ => KErr MBadArgs end
+  | K_NumpyArray_contiguous_copy =>
+      match a with [VL x; VL f; VI n; VI st; VL pos] => o1 (NumpyArray_contiguous_copy x f n st pos) | _ => KErr MBadArgs end
+  | K_NumpyArray_getitem_next_null =>
+      match a with [VL x; VL f; VI n; VI st; VL pos] => o1 (NumpyArray_getitem_next_null x f n st pos) | _ => KErr MBadArgs end
+  | K_NumpyArray_fill_tocomplex =>
+      match a with [VL x; VI off; VL f; VI n] => o1 (NumpyArray_fill_tocomplex x off f n) | _ => KErr MBadArgs end
+  | K_NumpyArray_fill_fromcomplex =>
+      match a with [VL x; VI off; VL f; VI n] => o1 (NumpyArray_fill_fromcomplex (ty ts 0) x off f n) | _ => KErr MBadArgs end
+  | K_NumpyArray_rearrange_shifted =>
+      match a with [VL x; VL sh; VI n; VL off; VI ol; VL p; VI _; VL st; VI _] => o1 (NumpyArray_rearrange_shifted x sh n off ol p st)
+      | _ => KErr MBadArgs end
+  | K_NumpyArray_subrange_equal =>
+      match a with [VL t; VL s; VL e; VI n; VL eq] => o2 (kmap (fun r => (t, r)) (NumpyArray_subrange_equal t s e n eq)) | _ => KErr MBadArgs end
+  | K_reduce_sum_complex =>
+      match a with [VL x; VL f; VL p; VI lp; VI ol] => o1 (reduce_sum_complex x f p lp ol) | _ => KErr MBadArgs end
+  | K_reduce_prod_complex =>
+      match a with [VL x; VL f; VL p; VI lp; VI ol] => o1 (reduce_prod_complex x f p lp ol) | _ => KErr MBadArgs end
+  | K_reduce_min_complex =>
+      match a with [VL x; VL f; VL p; VI lp; VI ol; VI idn] => o1 (reduce_minmax_complex true idn x f p lp ol) | _ => KErr MBadArgs end
+  | K_reduce_max_complex =>
+      match a with [VL x; VL f; VL p; VI lp; VI ol; VI idn] => o1 (reduce_minmax_complex false idn x f p lp ol) | _ => KErr MBadArgs end
+  | K_reduce_argmin_complex =>
+      match a with [VL x; VL f; VL p; VI lp; VI ol] => o1 (reduce_arg_complex true x f p lp ol) | _ => KErr MBadArgs end
+  | K_reduce_argmax_complex =>
+      match a with [VL x; VL f; VL p; VI lp; VI ol] => o1 (reduce_arg_complex false x f p lp ol) | _ => KErr MBadArgs end
+  | K_reduce_countnonzero_complex =>
+      match a with [VL x; VL f; VL p; VI lp; VI ol] => o1 (reduce_countnonzero_complex x f p lp ol) | _ => KErr MBadArgs end
+  | K_reduce_sum_bool_complex =>
+      match a with [VL x; VL f; VL p; VI lp; VI ol] => o1 (reduce_sum_bool_complex x f p lp ol) | _ => KErr MBadArgs end
+  | K_reduce_prod_bool_complex =>
+      match a with [VL x; VL f; VL p; VI lp; VI ol] => o1 (reduce_prod_bool_complex x f p lp ol) | _ => KErr MBadArgs end
+  | K_content_reduce_zeroparents =>
+      match a with [VL x; VI n] => o1 (content_reduce_zeroparents x n) | _ => KErr MBadArgs end
   end.
